@@ -230,7 +230,10 @@ def real_main(prop, workdir):
             if k:
                 knowns.append((k, v))
             else:
-                violations.append((v, r.get("replay") or ""))
+                rp = r.get("replay") or ""
+                if r.get("replay_oracle") and r.get("replay_oracle") != v["oracle"]:
+                    rp = ""
+                violations.append((v, rp))
     write_evidence(prop, tier, seed, meta, results, dead, violations, knowns, time.time() - t0)
     seen = set()
     for k, v in knowns:
@@ -245,6 +248,8 @@ def real_main(prop, workdir):
             return 2
     if violations:
         shown = set()
+        # prefer an occurrence that has a replay file
+        violations.sort(key=lambda x: (x[0]["oracle"], x[1] == ""))
         for v, rp in violations:
             key = v["oracle"]
             if key in shown:
